@@ -315,6 +315,7 @@ def verify_function(table, reg, qual, cls, props, timeout_ms=None):
     res["inlined"] = sorted(eng.inlined)
     res["callees"] = sorted(eng.callees)
     res["effects"] = sorted(eng.effects_used)
+    res["auto_reads"] = sorted(getattr(eng, "auto_reads", ()))
     res["wall_s"] = round(time.time() - t0, 3)
     res["solver"] = dict(prover.stats)
     return res
